@@ -893,7 +893,64 @@ def envelope_chunk(repo: Repo, rep, P: str, tables):
             else:
                 pieces.append(v)
         split(val)
+
+        def size_of(x) -> Optional[int]:
+            """bytes of a piece whose size is fixed: pack with a constant format, a bytes constant, a local naming one, a padded piece"""
+            if isinstance(x, ast.Name) and x.id in wdefs and x.id != dvar:
+                return size_of(wdefs[x.id])
+            if isinstance(x, ast.Call) and norm(x.func) in ("pack", "struct.pack") and x.args:
+                try:
+                    return struct.calcsize(repo.fold(x.args[0], ci=env, sf=env.file))
+                except Exception:
+                    return None
+            if isinstance(x, ast.Call) and isinstance(x.func, ast.Attribute) and x.func.attr == "ljust" and len(x.args) == 2:
+                try:
+                    n_ = repo.fold(x.args[0], ci=env, sf=env.file)
+                except Exception:
+                    return None
+                inner_ = size_of(x.func.value)
+                return max(inner_, n_) if inner_ is not None and isinstance(n_, int) else None
+            try:
+                b_ = repo.fold(x, ci=env, sf=env.file)
+                return len(b_) if isinstance(b_, (bytes, bytearray)) else None
+            except Exception:
+                return None
+        expanded = []
         for v in pieces:
+            # X.ljust(N, b"\0"): X, then zeros up to N
+            if isinstance(v, ast.Call) and isinstance(v.func, ast.Attribute) and v.func.attr == "ljust" and len(v.args) == 2 \
+                    and isinstance(v.args[1], ast.Constant) and v.args[1].value == b"\0":
+                inner_sz = size_of(v.func.value)
+                try:
+                    total = repo.fold(v.args[0], ci=env, sf=env.file)
+                except Exception:
+                    total = None
+                if inner_sz is not None and isinstance(total, int) and total >= inner_sz:
+                    sub = []
+                    saved, pieces_ref = pieces[:], pieces
+                    pieces_ref.clear()
+                    split(v.func.value)
+                    sub = pieces_ref[:]
+                    pieces_ref.clear()
+                    pieces_ref.extend(saved)
+                    expanded.extend(sub)
+                    if total > inner_sz:
+                        expanded.append(ast.Call(func=ast.Name(id="bytes", ctx=ast.Load()), args=[ast.Constant(value=total - inner_sz)], keywords=[]))
+                    continue
+            # bytes(N − len(header)): zeros up to N
+            if isinstance(v, ast.Call) and norm(v.func) == "bytes" and len(v.args) == 1 and not v.keywords and isinstance(v.args[0], ast.BinOp) \
+                    and isinstance(v.args[0].op, ast.Sub) and isinstance(v.args[0].right, ast.Call) and norm(v.args[0].right.func) == "len" \
+                    and len(v.args[0].right.args) == 1:
+                try:
+                    total = repo.fold(v.args[0].left, ci=env, sf=env.file)
+                except Exception:
+                    total = None
+                inner_sz = size_of(v.args[0].right.args[0])
+                if isinstance(total, int) and inner_sz is not None and total >= inner_sz:
+                    expanded.append(ast.Call(func=ast.Name(id="bytes", ctx=ast.Load()), args=[ast.Constant(value=total - inner_sz)], keywords=[]))
+                    continue
+            expanded.append(v)
+        for v in expanded:
             if is_points_piece(v):
                 loop_part = v
             elif isinstance(v, ast.Call) and norm(v.func) in ("pack", "struct.pack"):
